@@ -70,6 +70,16 @@ CLAIMED = {
    note='PARTIAL where the truth is in the runtime: lock and mailbox semantics of parking_lot/puppet are assumed; the correspondence is outcome-level (the theorem makes the outcome schedule-independent). Trusted: Lean kernel + standard axioms (grind used in the invariant step).',
    technique='Lean 4 proof (invariant over all interleavings of a small-step machine) + outcome-level correspondence on real runtimes',
    ref='§8 C18'),
+ 'C02': dict(
+   text='Lean 4 theorems about the executable model of the KeyspaceActor handlers over the reference store, with storage failures as explicit oracle arguments (single call fails without effect; a failing bulk call has written an arbitrary reported sub-list; tombstone removal fails partially): Agree (per id: live@t in the set <=> document@t in the store, tombstone@t <=> tombstone row@t) is preserved by on_set, on_del (no hypotheses), on_multi_set, on_multi_del (distinct ids; entries not refused when their turn comes) and on_purge_tombstones (all failure modes), hence by induction after every request of every history (agree_reachable); applied-to-both-or-neither; negation witness for the pinned acceptance rule (D1) and the D13 witness showing why distinct ids are required. Tied to the code by real actors over a fault-injecting Storage wrapper, set and store printed after every request.',
+   note='Hypotheses of the bulk theorems: pairwise distinct ids in one request (public API guarantees it; D13 otherwise) and `Accepted` for the stamp-sorted entries (automatic when all stamps of an origin lie within the forgiveness window: C04.accepted_of_window_aux; in general it follows from the ascending application order - argued in DESIGN.md, not yet a Lean lemma). Trusted: Lean kernel + standard axioms; storage failure contract as documented on BulkMutationError.',
+   technique='Lean 4 proof (handler-by-handler invariant preservation, induction over request histories) + model/implementation correspondence check with fault injection',
+   ref='§8 C02'),
+ 'C07': dict(
+   text='Lean 4 theorems: load_exact (for every store whose metadata rows form a map, the set rebuilt by load_states_from_storage has exactly the live ids and tombstones of the store with the same stamps - for ANY replay order, every operation on source 0 of an empty two-source set is accepted), crash_anywhere (for every well-formed store - in particular every store reachable at any crash point, between requests or between the storage write and the set update inside a request - the restarted node agrees with its store), acked_survives. Tied to the code by real restarts (fresh KeyspaceGroup + load_states_from_storage on the same MemStore/SQLite file) at every position and inside requests (storage call parked after the inner write).',
+   note='The crash is a crash of the process state, not of the disk: durability of SQLite/LMDB under power loss is outside the model. Convergence of the restarted node with its peers is C01 with this node state. Trusted: Lean kernel + standard axioms.',
+   technique='Lean 4 proof (reload refines the store for all replay orders; crash = reload of any well-formed store) + model/implementation correspondence check with real restarts',
+   ref='§8 C07'),
 }
 NA_REASON = 'check not built yet (work in progress; see DESIGN.md section 8)'
 
